@@ -111,7 +111,7 @@ def prove_convert_string(rep, nmfu, program, prop="C15"):
         cc = as_z(before["contents"])
         return hyps(eng, before, after) + [z3.Implies(z3.And(i1 < z3.Length(cc), UNITS(cc, i1)), well_formed_unit(cc, i1, UNITS))]
     lc[(fnq, "while", 0)]["hyps"] = hyps2
-    runs = explore(program, body, hooks={"int_of_str": int_of_str_hook}, loop_contracts=lc)
+    runs = explore(program, body, hooks={"int_of_str": int_of_str_hook}, loop_contracts=lc, fork_functions=(fnq,))
     rep.fn(fnq)
     nob = 0
     for ri, r in enumerate(runs):
